@@ -36,7 +36,7 @@ func init() {
 		Rule: "cases: (1) exhaustive sweep: every known longhand property x every explicit literal of a reference table written from the CSS specifications x 8 tree positions (root, under a declaring root, child, grandchild, ::before, anonymous box, page context, margin box), each with the modes none / initial / inherit / initial-literal / explicit value; " +
 			"(2) exhaustive unit sweep: every length-taking property template x every unit x font-size contexts, compared with the same declaration written in px computed by a float64 model of the fixed ratios and the font-size chain; " +
 			"(3) random chains (depth <= 6) of font-size / line-height / length declarations against a float64 model; (4) random documents with several declarations per element, checked against the defaulting rules per (element, property). " +
-			"Every case also reads all properties of all observed styles twice in seed-permuted orders and once more on a fresh computation in canonical order. " +
+			"Every case also reads all properties of all observed styles twice in seed-permuted orders, once more on a fresh computation in canonical order, and once on Copy()s of the styles taken on a fresh computation before any read. " +
 			"A case is non-trivial when the declared value it rests on is observably different from the default at the declaring element (sweep), when the unit under test changed the computed pixel value as the model predicts (units), or when at least one relative font-size and one relative length were resolved (chains, mixes); distinct = distinct input.",
 		N: func(tier string) int {
 			a, b, c, d := counts(tier)
@@ -64,6 +64,7 @@ func init() {
 			return map[string]int64{
 				"values_read":          int64(a) * 177 * 5,
 				"order_checks":         int64(a) * 177 * 5,
+				"copy_checks":          int64(a)*177*5 + int64(b) + int64(c)*3,
 				"eq_relations":         int64(a) * 3,
 				"twin_relations":       int64(a) * 100,
 				"distinguishing_cases": int64(a) * 8 / 10,
